@@ -395,38 +395,67 @@ func (b *builder) apply(app *fiber.App, rt fiber.Router, u *unit, multiAll bool)
 	return nil
 }
 
-// buildFull registers the whole program.
-func buildFull(p *program, tr *tracer) *fiber.App {
+// fullBuilder registers a program on one app, possibly in several steps (routes added after the
+// app has already served requests).
+type fullBuilder struct {
+	p       *program
+	app     *fiber.App
+	b       *builder
+	routers map[int]fiber.Router
+	done    int // units [0,done) are registered
+}
+
+func newFullBuilder(p *program, tr *tracer) *fullBuilder {
 	app := p.Cfg.NewApp()
-	b := &builder{tr: tr}
-	routers := map[int]fiber.Router{-1: app}
-	var router func(gid int) fiber.Router
-	router = func(gid int) fiber.Router {
-		if rt, ok := routers[gid]; ok {
-			return rt
-		}
-		g := p.Groups[gid]
-		// group without handlers (or whose groupuse unit has not been reached: cannot happen,
-		// the unit precedes every member)
-		rt := router(g.Parent).Group(g.Prefix)
-		routers[gid] = rt
+	return &fullBuilder{p: p, app: app, b: &builder{tr: tr}, routers: map[int]fiber.Router{-1: app}}
+}
+
+func (fb *fullBuilder) router(gid int) fiber.Router {
+	if rt, ok := fb.routers[gid]; ok {
 		return rt
 	}
-	for i := range p.Units {
+	g := fb.p.Groups[gid]
+	// group without handlers (or whose groupuse unit has not been reached: cannot happen,
+	// the unit precedes every member)
+	rt := fb.router(g.Parent).Group(g.Prefix)
+	fb.routers[gid] = rt
+	return rt
+}
+
+// registerUpTo performs the API calls of units [done,upto).
+func (fb *fullBuilder) registerUpTo(upto int) {
+	p := fb.p
+	for i := fb.done; i < upto; i++ {
 		u := &p.Units[i]
 		if u.Multi >= 0 && u.Multi != i {
 			continue // registered by the first unit of the multi call
 		}
-		rt := b.apply(app, router(u.Gid), u, true)
+		rt := fb.b.apply(fb.app, fb.router(u.Gid), u, true)
 		if u.Kind == "groupuse" {
 			for gid, g := range p.Groups {
 				if g.Unit == i {
-					routers[gid] = rt
+					fb.routers[gid] = rt
 				}
 			}
 		}
 	}
-	return app
+	fb.done = upto
+}
+
+// buildFull registers the whole program.
+func buildFull(p *program, tr *tracer) *fiber.App {
+	fb := newFullBuilder(p, tr)
+	fb.registerUpTo(len(p.Units))
+	return fb.app
+}
+
+// splitPoint moves a cut between units forward until it does not fall inside one multi-prefix
+// Use call (whose units are registered together).
+func splitPoint(p *program, k int) int {
+	for k < len(p.Units) && p.Units[k].Multi >= 0 && p.Units[k].Multi != k {
+		k++
+	}
+	return k
 }
 
 // buildSolo registers only unit i (groups re-created without their handlers).
@@ -694,57 +723,139 @@ func runDispatch(e *ev.Env) {
 	e.Cases("tables", e.N(4000, 150000), func(c *ev.Case) {
 		r := c.R
 		p := genProgram(r)
-		nreq := e.N(40, 60)
-		methods := append(append([]string(nil), p.Cfg.Methods()...), "FOO")
-		var reqs [][2]string
-		for i := 0; i < nreq; i++ {
-			var path string
-			switch r.PickW(70, 15, 15) {
-			case 0:
-				u := p.Units[r.Intn(len(p.Units))]
-				base := u.Path
-				if len(u.RoutePath) > 0 {
-					base = strings.Join(u.RoutePath, "")
-				}
-				if u.Kind == "usenp" {
-					base = genPath(r)
-				}
-				g := u.Gid
-				for g >= 0 {
-					base = strings.TrimRight(p.Groups[g].Prefix, "/") + "/" + strings.TrimLeft(base, "/")
-					g = p.Groups[g].Parent
-				}
-				path = fillSimple(r, base)
-				if u.Kind == "use" || u.Kind == "groupuse" || u.Kind == "usenp" {
-					if r.Bool() {
-						path = strings.TrimRight(path, "/") + fillSimple(r, genPath(r))
-					}
-				}
-				if r.Chance(1, 3) {
-					path = mutatePath(r, path)
-				}
-			case 1:
-				path = fillSimple(r, genPath(r))
-			case 2:
-				path = "/" + r.StringFrom("abc/x", r.Range(0, 5))
-			}
-			m := gen.Pick(r, methods)
-			if r.Chance(1, 25) {
-				m = "FOO"
-			}
-			reqs = append(reqs, [2]string{m, path})
+		checkProgram(e, c, p, genRequests(r, p, e.N(40, 60)))
+	})
+	// The same tables registered in two or three steps: part of the routes, some requests served
+	// (the lookup index has been built), the rest of the routes added, the index rebuilt — by
+	// RebuildTree(), the documented call for routes added at run time, or by asking the app for
+	// its Handler() again. After each step the app has to answer like the table registered so far.
+	e.Cases("incremental", e.N(1500, 60000), func(c *ev.Case) {
+		r := c.R
+		p := genProgram(r)
+		for len(p.Units) < 2 {
+			p = genProgram(r)
 		}
-		checkProgram(e, c, p, reqs)
+		reqs := genRequests(r, p, e.N(40, 60))
+		// short paths are looked up in the index bucket shared by all routes
+		for i := 0; i < 6; i++ {
+			reqs = append(reqs, [2]string{gen.Pick(r, p.Cfg.Methods()), "/" + r.StringFrom("abx1/", r.Range(0, 2))})
+		}
+		plan := &stagePlan{ViaHandler: r.Chance(1, 3)}
+		cut := splitPoint(p, r.Range(1, len(p.Units)-1))
+		if cut < len(p.Units) {
+			plan.Cuts = append(plan.Cuts, cut)
+			if r.Chance(1, 3) && cut+1 < len(p.Units) {
+				if cut2 := splitPoint(p, r.Range(cut+1, len(p.Units)-1)); cut2 < len(p.Units) {
+					plan.Cuts = append(plan.Cuts, cut2)
+				}
+			}
+		}
+		if len(plan.Cuts) == 0 {
+			e.Stat("incremental_without_cut", 1)
+		}
+		checkProgramStaged(e, c, p, reqs, plan)
 	})
 }
 
-func checkProgram(e *ev.Env, c *ev.Case, p *program, reqs [][2]string) {
-	tr := &tracer{}
-	var full *drive.Direct
-	if e.Guard(c, "dispatch|build", p, func() { full = drive.NewDirect(buildFull(p, tr)) }) {
-		return
+func genRequests(r *gen.Rand, p *program, nreq int) [][2]string {
+	methods := append(append([]string(nil), p.Cfg.Methods()...), "FOO")
+	var reqs [][2]string
+	for i := 0; i < nreq; i++ {
+		var path string
+		switch r.PickW(70, 15, 15) {
+		case 0:
+			u := p.Units[r.Intn(len(p.Units))]
+			base := u.Path
+			if len(u.RoutePath) > 0 {
+				base = strings.Join(u.RoutePath, "")
+			}
+			if u.Kind == "usenp" {
+				base = genPath(r)
+			}
+			g := u.Gid
+			for g >= 0 {
+				base = strings.TrimRight(p.Groups[g].Prefix, "/") + "/" + strings.TrimLeft(base, "/")
+				g = p.Groups[g].Parent
+			}
+			path = fillSimple(r, base)
+			if u.Kind == "use" || u.Kind == "groupuse" || u.Kind == "usenp" {
+				if r.Bool() {
+					path = strings.TrimRight(path, "/") + fillSimple(r, genPath(r))
+				}
+			}
+			if r.Chance(1, 3) {
+				path = mutatePath(r, path)
+			}
+		case 1:
+			path = fillSimple(r, genPath(r))
+		case 2:
+			path = "/" + r.StringFrom("abc/x", r.Range(0, 5))
+		}
+		m := gen.Pick(r, methods)
+		if r.Chance(1, 25) {
+			m = "FOO"
+		}
+		reqs = append(reqs, [2]string{m, path})
 	}
-	o := &oracle{p: p, tr: tr, solos: make([]*soloInfo, len(p.Units)), memo: map[string]bool{}, e: e, c: c}
+	return reqs
+}
+
+// stagePlan describes a registration in several steps.
+type stagePlan struct {
+	Cuts       []int `json:"cuts"`        // ascending; units [0,Cuts[0]) first, then up to Cuts[1], … then the rest
+	ViaHandler bool  `json:"via_handler"` // later steps re-run the startup process (app.Handler()) instead of RebuildTree()
+}
+
+func checkProgram(e *ev.Env, c *ev.Case, p *program, reqs [][2]string) {
+	checkProgramStaged(e, c, p, reqs, nil)
+}
+
+func checkProgramStaged(e *ev.Env, c *ev.Case, p *program, reqs [][2]string, plan *stagePlan) {
+	tr := &tracer{}
+	fb := newFullBuilder(p, tr)
+	stages := []int{len(p.Units)}
+	if plan != nil {
+		stages = append(append([]int(nil), plan.Cuts...), len(p.Units))
+	}
+	solos := make([]*soloInfo, len(p.Units))
+	memo := map[string]bool{}
+	var full *drive.Direct
+	for si, upto := range stages {
+		if e.Guard(c, "dispatch|build", map[string]any{"program": p, "stages": plan, "stage": si}, func() {
+			fb.registerUpTo(upto)
+			switch {
+			case full == nil:
+				full = drive.NewDirect(fb.app)
+			case plan.ViaHandler:
+				full.Rebuild()
+			default:
+				fb.app.RebuildTree()
+			}
+		}) {
+			return
+		}
+		// the table registered so far is the reference of this stage
+		sp := p
+		if upto < len(p.Units) {
+			cp := *p
+			cp.Units = p.Units[:upto]
+			sp = &cp
+		}
+		sreqs := reqs
+		if upto < len(p.Units) && len(sreqs) > 12 {
+			// earlier stages serve a slice of the requests (the last dozen: it holds the short paths)
+			sreqs = sreqs[len(sreqs)-12:]
+		}
+		o := &oracle{p: sp, tr: tr, solos: solos, memo: memo, e: e, c: c}
+		judgeRequests(e, c, p, o, full, tr, sreqs, plan, si)
+		if si > 0 {
+			e.Stat("stages_after_late_registration", 1)
+		}
+	}
+	e.Sample("table", map[string]any{"cfg": p.Cfg.String(), "units": len(p.Units), "first_request": reqs[0], "stages": stages})
+}
+
+func judgeRequests(e *ev.Env, c *ev.Case, p *program, o *oracle, full *drive.Direct, tr *tracer, reqs [][2]string, plan *stagePlan, stage int) {
 	for _, rq := range reqs {
 		m, path := rq[0], rq[1]
 		var ex *expectation
@@ -775,9 +886,19 @@ func checkProgram(e *ev.Env, c *ev.Case, p *program, reqs [][2]string) {
 		if len(ex.Trace) >= 2 || len(path) <= 3 || ex.PathOv || ex.MethodOv || ex.Status == 405 {
 			e.Nontrivial(p.Cfg.String(), fmt.Sprint(ex.Trace), m, path, fmt.Sprint(ex.Status))
 		}
+		if stage > 0 {
+			// input class: routes were added after the app had served requests, index rebuilt
+			ctxClass += "+routes-added-after-first-request"
+		}
 		detail := func() map[string]any {
-			return map[string]any{"program": p, "method": m, "path": path, "expected": ex,
+			d := map[string]any{"program": p, "method": m, "path": path, "expected": ex,
 				"got_trace": got, "got_status": resp.Status, "got_allow": resp.Get("Allow")}
+			if plan != nil {
+				d["registration_stages"] = plan
+				d["stage"] = stage
+				d["units_registered"] = len(o.p.Units)
+			}
+			return d
 		}
 		if !eqInts(got, ex.Trace) {
 			what := "trace-differs"
@@ -822,5 +943,4 @@ func checkProgram(e *ev.Env, c *ev.Case, p *program, reqs [][2]string) {
 			e.Stat("overrides", 1)
 		}
 	}
-	e.Sample("table", map[string]any{"cfg": p.Cfg.String(), "units": len(p.Units), "first_request": reqs[0]})
 }
